@@ -46,7 +46,7 @@ def tree_hash():
         with open(p, 'rb') as f:
             h.update(hashlib.sha256(f.read()).digest())
     # engines and corpus are part of the key: a changed extractor must not reuse old facts
-    for sub in ('engines/mirfacts/src', 'engines/genscan/src', 'corpus', 'fixtures'):
+    for sub in ('engines/mirfacts/src', 'engines/genscan/src', 'corpus', 'fixtures', 'witness'):
         d = os.path.join(VERIF, sub)
         if os.path.isdir(d):
             for p in _iter_files(d, ('.rs', '.toml', '.py'), {'target'}):
@@ -126,6 +126,10 @@ MIR_CONFIGS = {
     'codegen-sm': (['-p', 'logos-codegen', '--features', 'state_machine_codegen'], '', None),
     # positive-control fixture crate
     'fixture': ([], '', os.path.join(VERIF, 'fixtures', 'mir')),
+    # frozen copy of the runtime crate with seeded defects (positive control of the runtime rules)
+    'fixture-rt': ([], '', os.path.join(VERIF, 'fixtures', 'mir-rt')),
+    # frozen copy of the generator crate with seeded defects (positive control of the generator rules)
+    'fixture-cg': ([], '', os.path.join(VERIF, 'fixtures', 'mir-cg')),
 }
 
 
@@ -143,6 +147,12 @@ def mir_facts(treehash, config):
         cwd = cwd or REPO
         tmp = tempfile.mkdtemp(prefix='logosverif-mir-')
         try:
+            if cwd.startswith(os.path.join(VERIF, 'fixtures')):
+                # never build inside /verif: work on a scratch copy (with the repository's lock file for crates with dependencies)
+                cp = os.path.join(tmp, 'fixture')
+                shutil.copytree(cwd, cp, ignore=shutil.ignore_patterns('target', 'Cargo.lock'))
+                shutil.copy(os.path.join(REPO, 'Cargo.lock'), os.path.join(cp, 'Cargo.lock'))
+                cwd = cp
             raw = os.path.join(tmp, 'raw')
             os.makedirs(raw)
             env = dict(BASE_ENV)
@@ -332,3 +342,26 @@ def witness_facts(treehash):
             return res
         finally:
             shutil.rmtree(tmp, ignore_errors=True)
+
+
+def fixture_gen(treehash):
+    """genscan output of the hand-broken generated lexers in fixtures/gen (positive controls)"""
+    out = os.path.join(CACHE, treehash, 'genfx')
+    done = os.path.join(out, '.done')
+    if os.path.exists(done):
+        return out
+    with Lock(os.path.join(CACHE, treehash, 'genfx.lock')):
+        if os.path.exists(done):
+            return out
+        ensure_engine(GENSCAN_DIR, GENSCAN_BIN, release=True)
+        os.makedirs(out, exist_ok=True)
+        d = os.path.join(VERIF, 'fixtures', 'gen')
+        for fn in sorted(os.listdir(d)):
+            if fn.endswith('.rs'):
+                with open(os.path.join(out, fn[:-3] + '.jsonl'), 'w') as f:
+                    r = subprocess.run([GENSCAN_BIN, os.path.join(d, fn), 'fixture-' + fn[:-3]], stdout=f, stderr=subprocess.PIPE, text=True)
+                if r.returncode != 0:
+                    raise RuntimeError('genscan failed on fixture %s: %s' % (fn, r.stderr[-500:]))
+        with open(done, 'w') as f:
+            f.write('ok\n')
+    return out
